@@ -72,8 +72,9 @@ def diagnose_not_a_window(timer, w):
             for i in range(cs["split"]):
                 m = cs["s"] + i * part
                 if m >= 1440 and win["s"] % 86400 == (m - 1440) * 60 and win["e"] - win["s"] == part * 60:
-                    return "split-part-after-midnight-anchored-on-same-day"
-    return None
+                    return "split-part-after-midnight-anchored-on-same-day", "%02d:%02d%s%02d:%02d/%d" % (
+                        cs["s"] // 60, cs["s"] % 60, "~" if cs["spread"] else "-", cs["e"] // 60, cs["e"] % 60, cs["split"])
+    return None, None
 
 
 def queries(ctx, tb, menu_path):
@@ -130,18 +131,23 @@ def queries(ctx, tb, menu_path):
     for idx, why in bad:
         q = json.loads(lines[idx])
         t = timers[q["t"] - 1]
-        diag = diagnose_not_a_window(t["timer"], q["w"]) if why == "not-a-window" else None
+        diag, span = diagnose_not_a_window(t["timer"], q["w"]) if why == "not-a-window" else (None, None)
         label = diag or why
         classes[label] += 1
-        # one violation per (class, timer string): the key names the class, the timer and the first failing query
-        if (label, t["str"]) in seen:
+        # a diagnosed (named) deviation is reported once per offending clock span; anything else once per
+        # (clause, timer string), the key naming the clause, the timer and the first failing query
+        group = (label, span) if diag else (label, t["str"])
+        if group in seen:
             continue
-        seen.add((label, t["str"]))
-        key = "%s: timer=%s %s" % (label, t["str"], q["case"][len(t["str"]) + 1:])
+        seen.add(group)
+        if diag:
+            key = "%s: clock span %s" % (label, span)
+        else:
+            key = "%s: timer=%s %s" % (label, t["str"], q["case"][len(t["str"]) + 1:])
         violations.append(Violation(
             key=key,
-            desc="refresh.timer=%r: real Schedule.Next/timeutil.Next result violates the window contract (%s)" % (
-                t["str"], label),
+            desc="refresh.timer=%r (%s): real Schedule.Next/timeutil.Next result violates the window contract: %s" % (
+                t["str"], q["case"][len(t["str"]) + 1:], label),
             replay={"kind": "query", "why": why, "class": label, "timer_str": t["str"], "timer_ast": t["timer"],
                     "query": q, "how": "timeutil.MockTimeNow(now); sched.Next(last); timeutil.Next(sched,last,max); "
                     "times are seconds since 2018-01-01T00:00:00Z"}))
@@ -378,7 +384,6 @@ def run(ctx):
 
         f_gram = [ex.submit(grammar, ctx, tb, a, n) for a, n in ctx.pick([("A", 4)], [("A", 5), ("B", 4)])]
         qv, qinfo, rtfile, qfiles = queries(ctx, tb, menu)
-        violations += qv
         ctx.log("queries: %d records, %d rejected" % (qinfo["queries"], sum(qinfo["query_failure_classes"].values())))
 
         ginfo = {}
@@ -406,6 +411,7 @@ def run(ctx):
         else:
             notes.append("protocol layer skipped (VERIF_C16_NO_PROTOCOL)")
 
+    violations += qv       # (grammar, round trip and protocol findings first, query findings last)
     if ctx.selftest:
         notes += corruption_selftest(ctx, qfiles, pfiles)
 
